@@ -68,6 +68,7 @@ def verify(target: str, tier: str = "quick", budget_ms: int = 10000, shard=(0, 1
         ex = Executor(c, reg)
         obs = ex.run()
         axioms = ex.axioms()
+        budget_ms = int(budget_ms * float(getattr(c, "budget_factor", 1)))
         t_sym = time.time()
         rep.symexec_ms = int((t_sym - t0) * 1000)
         n_par = int(getattr(c, "shards", 1))
